@@ -74,7 +74,10 @@ Proof. intros H. destruct i; [congruence|reflexivity]. Qed.
 Lemma inv_contrib_nonroot c g i : Inv c g -> (i < NP c)%nat -> i <> 0%nat ->
   idle0 (P c i) = true -> st (P c i) = IWC -> ncl (P c i) = 0 ->
   exists g', Inv (mkC (lset (procs c) i (fst (send_up (NP c) i (P c i))))
-                      (net c ++ snd (send_up (NP c) i (P c i))) (dlyq c)) g'.
+                      (net c ++ snd (send_up (NP c) i (P c i))) (dlyq c)) g' /\
+    gf g i = false /\ gf g' i = true /\ cur_s g' i = sent (P c i) /\ cur_r g' i = recv (P c i) /\
+    (forall k, k <> i -> gf g' k = gf g k /\ cur_s g' k = cur_s g k /\ cur_r g' k = cur_r g k) /\
+    (forall k, dc_s g' k = dc_s g k /\ dc_r g' k = dc_r g k) /\ gd g' = gd g.
 Proof.
   intros HI Hi Hi0 Hidle Hst Hncl. rewrite (send_up_nonroot _ _ _ Hi0). cbn [fst snd].
   set (p := P c i) in *. set (s' := acc_s p + sent p). set (r' := acc_r p + recv p).
@@ -83,6 +86,10 @@ Proof.
   set (g' := mkG (fun k => if (k =? i)%nat then sent p else cur_s g k) (fun k => if (k =? i)%nat then recv p else cur_r g k)
                  (dc_s g) (dc_r g) (fun k => if (k =? i)%nat then true else gf g k) (gz g) (gd g)).
   exists g'.
+  cut (Inv c' g' /\ gf g i = false).
+  { intros [A B]. split; [exact A|]. split; [exact B|]. unfold g'. cbn [gf cur_s cur_r dc_s dc_r gd]. rewrite Nat.eqb_refl.
+    split; [reflexivity|]. split; [reflexivity|]. split; [reflexivity|].
+    split; [intros k Hk; apply Nat.eqb_neq in Hk; rewrite Hk; auto|]. split; [intros k; auto|reflexivity]. }
   assert (HN : NP c' = NP c) by (unfold NP, c'; cbn; apply lset_length; auto).
   assert (HP : forall k, P c' k = if (k =? i)%nat then q else P c k) by (intros; unfold c'; rewrite P_lset by auto; reflexivity).
   assert (Hc1 : cls p = 1) by (unfold cls; rewrite Hst; auto).
@@ -112,6 +119,7 @@ Proof.
     - rewrite U1. apply Nat.eqb_neq in Hk. rewrite Nat.eqb_sym, Hk. lia. }
   pose proof (loc_ok_P c g i HI Hi) as Hl. fold p in Hl.
   destruct (I_g1 _ _ HI i Hi) as (G1a & G1b & G1c & G1d). fold p in G1b, G1d.
+  split; [|exact Ig].
   apply (inv_build_g c c' g g'); auto.
   - intros k Hk. rewrite HP. destruct (k =? i)%nat eqn:E.
     + apply Nat.eqb_eq in E; subst k. fold p. unfold q, Rnum, Hyp5. rec_cases p. cbn in Hst. subst st0. proc_tac.
@@ -212,7 +220,12 @@ Proof. cbv zeta. unfold send_up, fwd. destruct (if nch N 0 =? 0 then true else _
 Lemma inv_contrib_root c g : Inv c g ->
   idle0 (P c 0) = true -> st (P c 0) = IWC -> ncl (P c 0) = 0 ->
   exists g', Inv (mkC (lset (procs c) 0 (fst (send_up (NP c) 0 (P c 0))))
-                      (net c ++ snd (send_up (NP c) 0 (P c 0))) (dlyq c)) g'.
+                      (net c ++ snd (send_up (NP c) 0 (P c 0))) (dlyq c)) g' /\
+    (forall k, gf g' k = false) /\ gd g' = true /\
+    (forall k, dc_s g' k = (if (k =? 0)%nat then sent (P c 0) else cur_s g k) /\
+               dc_r g' k = (if (k =? 0)%nat then recv (P c 0) else cur_r g k)) /\
+    (forall k, (0 < k < NP c)%nat -> gf g k = true) /\
+    bsum (NP c) (dc_s g') = acc_s (P c 0) + sent (P c 0) /\ bsum (NP c) (dc_r g') = acc_r (P c 0) + recv (P c 0).
 Proof.
   intros HI Hidle Hst Hncl. pose proof (I_N _ _ HI) as HN1. rewrite send_up_root. cbv zeta. cbn [fst snd].
   set (p := P c 0) in *. set (s' := acc_s p + sent p). set (r' := acc_r p + recv p).
@@ -224,6 +237,9 @@ Proof.
   set (cr := fun k => if (k =? 0)%nat then recv p else cur_r g k).
   set (g' := mkG cs cr cs cr (fun _ => false) (fun k => P c' k) true).
   exists g'.
+  cut (Inv c' g' /\ (forall k, (0 < k < NP c)%nat -> gf g k = true) /\ bsum (NP c) cs = s' /\ bsum (NP c) cr = r').
+  { intros (A & B & C1 & C2). split; [exact A|]. unfold g'. cbn [gf dc_s dc_r gd].
+    split; [reflexivity|]. split; [reflexivity|]. split; [intros k; split; reflexivity|]. split; [exact B|]. split; [exact C1|exact C2]. }
   assert (H0N : (0 < NP c)%nat) by lia.
   assert (HN : NP c' = NP c) by (unfold NP, c'; cbn [procs]; apply lset_length; auto).
   assert (HP : forall k, P c' k = if (k =? 0)%nat then q else P c k) by (intros; unfold c'; rewrite P_lset by auto; reflexivity).
@@ -309,6 +325,7 @@ Proof.
             upc c' k = 0 /\ dT c' k = (if res && is_child (NP c) 0 k then 1 else 0) /\ dF c' k = (if negb res && is_child (NP c) 0 k then 1 else 0)).
   { intros k Hk. destruct (Hall k Hk) as (_ & (U & T & F) & _). unfold upc, dT, dF in *. rewrite !Hcnt, U, T, F, upfrom_fwd.
     destruct res; cbn [andb negb]; rewrite ?downT_fwd, ?downF_fwd, ?downT_fwdF, ?downF_fwdT; auto. }
+  split; [|split; [intros k Hk; apply (Hall k Hk)|exact Hsum]].
   constructor; rewrite ?HN.
   - auto.
   - intros k Hk. rewrite HP. destruct (k =? 0)%nat eqn:E; [|apply (I_loc _ _ HI); auto].
